@@ -36,8 +36,8 @@ def c03(e2e):
     return runs
 w("C03", {
  "quick": c03([(2, 0, 0, "true", 1), (2, 1, 3, "false", 1), (2, 0, 1, "true", 0), (1, 0, 5, "true", 2)]),
- "thorough": c03([(2, 0, 0, "true", 2), (2, 1, 3, "false", 2), (2, 4, 1, "true", 2), (3, 0, 0, "true", 1), (3, 1, 3, "true", 1), (1, 0, 5, "true", 3), (2, 1, 5, "true", 1)]),
- "outside": ["more than 3 outstanding requests, more than 2 preemptions", "real TCP", "Tversion with a tag other than NOTAG (protocol precondition)"],
+ "thorough": c03([(2, 0, 0, "true", 2), (2, 1, 3, "false", 2), (2, 4, 1, "true", 2), (3, 0, 0, "true", 0), (3, 1, 3, "true", 0), (1, 0, 5, "true", 3), (2, 1, 5, "true", 1)]),
+ "outside": ["more than 3 outstanding requests, more than 2 preemptions, any preemption with 3 requests (3 requests: every choice of the next goroutine at blocking and yield points only; 3 requests with 1 preemption did not finish in 25 minutes)", "real TCP", "Tversion with a tag other than NOTAG (protocol precondition)"],
  "assumptions": [SCHED, "reply content oracle: independent encoder harness/ref_wire.go"]})
 
 # ---------------- C07 ----------------
